@@ -52,6 +52,144 @@ def get_obj(desc):
     return o
 
 
+# ---- presentations: which Python OBJECT stands for a point / a scalar -----------------------------------------
+# index k of a point presentation (the driver's object-level lines use the same numbering; k >= 3: twin curve object)
+PRESENTATIONS = ["canon",       # curve.infinity() / curve.Point(x, y)
+                 "ctor",        # Point(x, y, curve), Point(None, None, curve)
+                 "rebuilt",     # rebuilt from the coordinates of another object; finite coordinates as int-subclass instances
+                 "twin",        # twin.infinity() / twin.Point(x, y): a second Curve/Generator object with the same parameters
+                 "twin_ctor",   # Point(x, y, twin)
+                 "plain"]       # a plain Curve(p, a, b, n) object with the same parameters (no Generator, no native code)
+_twins = {}
+
+
+class IntSub(int):
+    """an int subclass instance: a legal presentation of an integer"""
+    pass
+
+
+def _params(o):
+    return (o._p, o._a, o._b, o._order)
+
+
+def get_twin(desc, plain=False):
+    key = (desc if isinstance(desc, str) else tuple(desc), plain)
+    if key not in _twins:
+        from pycoin.ecdsa.Curve import Curve
+        o = get_obj(desc)
+        if plain or isinstance(desc, str) or desc[0] == "curve":
+            t = Curve(*_params(o))
+        else:
+            _, p, a, b, gx, gy, n, ent = desc
+            t = make_generator(p, a, b, (gx, gy), n, ent + 1)
+        _twins[key] = t
+    return _twins[key]
+
+
+def mkpt_pres(desc, P, k):
+    from pycoin.ecdsa.Point import Point
+    c = get_obj(desc)
+    xy = (None, None) if P is None else (P[0], P[1])
+    if k == 0:
+        return mkpt(c, P)
+    if k == 1:
+        return Point(xy[0], xy[1], c)
+    if k == 2:
+        if P is None:
+            return Point(*tuple(mkpt(c, None)), c)
+        return Point(IntSub(xy[0]), IntSub(xy[1]), c)
+    if k == 3:
+        t = get_twin(desc)
+        return t.infinity() if P is None else t.Point(xy[0], xy[1])
+    if k == 4:
+        return Point(xy[0], xy[1], get_twin(desc))
+    if k == 5:
+        return Point(xy[0], xy[1], get_twin(desc, plain=True))
+    raise KeyError(k)
+
+
+def mk_scalar(e, ks):
+    """scalar presentations: 0 int, 1 int subclass, 2 bool (only 0 / 1)"""
+    if ks == 1:
+        return IntSub(e)
+    if ks == 2:
+        return bool(e)
+    return e
+
+
+def entropy_f_kind(entropy: int, kind: str):
+    base = entropy_f_for(entropy)
+    if kind == "bytearray":
+        return lambda n: bytearray(base(n))
+    if kind == "memoryview":
+        return lambda n: memoryview(base(n))
+    return base
+
+
+def probe(g, ks, xs):
+    """observations on a generator object + the state it carries"""
+    obs = [cpt(g * k) for k in ks] + [cpt(k * g) for k in ks[:2]] + [cpt(g.raw_mul(k)) for k in ks[:3]]
+    obs += [cpt(g.multiply(g, ks[0])), cpt(-g), cpt(g + g), cpt(g.infinity() + g)]
+    for x in xs:
+        try:
+            p0, p1 = g.points_for_x(x)
+            obs.append("(%s %s)" % (cpt(p0), cpt(p1)))
+        except Exception as e:  # noqa
+            obs.append(tag(e))
+    state = [cpt(g), canon(g._bit_count), canon(len(g._powers)), canon([(P[0], P[1]) for P in g._powers[:4]]),
+             canon(g._blinding_factor), cpt(g._minus_blinding_factor_g), cpt(g.infinity()), canon(g.infinity() is g._infinity),
+             canon(list(_params(g)))]
+    return obs, state
+
+
+def history(desc, seed, ks, xs):
+    """observe, run a random history of other calls on the same and on other objects, observe again"""
+    import random
+    from pycoin.ecdsa.Curve import Curve
+    from pycoin.ecdsa.Point import Point
+    rng = random.Random(seed)
+    g = get_obj(desc)
+    before = probe(g, ks, xs)
+    p, a, b, n = _params(g)
+    other = Curve(23, 1, 1, 7)
+    Q = Point(13, 7, other)
+    twin = get_twin(desc, plain=True)
+    pts = [g * 3, g * 5, twin.Point(g[0], g[1]), twin.infinity(), Point(None, None, g), g.infinity()]
+    log = []
+    for _ in range(rng.randint(8, 20)):
+        act = rng.randrange(12)
+        try:
+            if act == 0:
+                pts.append(g * rng.choice([0, 1, -1, n, n + 1, rng.getrandbits(300), -rng.getrandbits(64), IntSub(7), True]))
+            elif act == 1:
+                pts.append(g.raw_mul(rng.getrandbits(rng.choice([8, 256, 300])) - rng.getrandbits(8)))
+            elif act == 2:
+                g.Point(1, 1)                 # off the curve: NoSuchPointError
+            elif act == 3:
+                g.points_for_x(rng.randrange(p))
+            elif act == 4:
+                pts.append(rng.choice(pts) + rng.choice(pts))
+            elif act == 5:
+                pts.append(rng.choice(pts) - rng.choice(pts))
+            elif act == 6:
+                pts.append(rng.choice(pts) * rng.choice([0, 1, 2, n - 1, -3, rng.getrandbits(70)]))
+            elif act == 7:
+                (Q + Q) * 5 + other.infinity()   # another curve object in between
+            elif act == 8:
+                pts.append(-rng.choice(pts))
+            elif act == 9:
+                g.inverse(rng.randrange(1, n))
+            elif act == 10:
+                g.multiply(rng.choice(pts), rng.getrandbits(40))
+            else:
+                g.inverse_mod(0, 0)           # ZeroDivisionError / native error path
+            log.append(act)
+        except Exception as e:  # noqa
+            log.append((act, type(e).__name__))
+    after = probe(g, ks, xs)
+    return before, after
+
+
 def tag(e):
     if isinstance(e, ZeroDivisionError):
         return "!E_OTHER"
@@ -86,6 +224,38 @@ def run_op(op):
         if name == "inverse_mod_plain":
             from pycoin.ecdsa.Curve import Curve
             return canon(Curve(23, 1, 1).inverse_mod(op[1], op[2]))
+        if name == "mk_gen_bytes":
+            from pycoin.ecdsa.Generator import Generator
+            _, p, a, b, gx, gy, n, ent, kind = op
+            g = Generator(p, a, b, (gx, gy), n, entropy_f=entropy_f_kind(ent, kind))
+            return "(%s %s %s %s)" % (cpt(g), canon(g._bit_count), canon(g._blinding_factor), cpt(g * 5))
+        if name == "history":
+            before, after = history(op[1], op[2], op[3], op[4])
+            import json
+            return json.dumps([before[0], before[1], after[0], after[1]])
+        if name == "x_add":               # operands living on two different curve objects
+            return cpt(mkpt(get_obj(op[1]), op[2]) + mkpt(get_obj(op[3]), op[4]))
+        if name.startswith("p_"):
+            d = op[1]
+            if name == "p_add":
+                return cpt(mkpt_pres(d, op[2], op[3]) + mkpt_pres(d, op[4], op[5]))
+            if name == "p_sub":
+                return cpt(mkpt_pres(d, op[2], op[3]) - mkpt_pres(d, op[4], op[5]))
+            if name == "p_cadd":
+                return cpt(get_obj(d).add(mkpt_pres(d, op[2], op[3]), mkpt_pres(d, op[4], op[5])))
+            if name == "p_neg":
+                return cpt(-mkpt_pres(d, op[2], op[3]))
+            if name == "p_mul":
+                return cpt(mkpt_pres(d, op[2], op[3]) * mk_scalar(op[4], op[5]))
+            if name == "p_rmul":
+                return cpt(mk_scalar(op[4], op[5]) * mkpt_pres(d, op[2], op[3]))
+            if name == "p_cmul":
+                return cpt(get_obj(d).multiply(mkpt_pres(d, op[2], op[3]), mk_scalar(op[4], op[5])))
+            if name == "p_gmul":          # generator * scalar presentations
+                return cpt(get_obj(d) * mk_scalar(op[2], op[3]))
+            if name == "p_raw_mul":
+                return cpt(get_obj(d).raw_mul(mk_scalar(op[2], op[3])))
+            return "!UNKNOWN-OP " + name
         c = get_obj(op[1])
         a = op[2:]
         if name == "inverse_mod":
